@@ -272,17 +272,30 @@ def run(ctx):
     pr = ctx.proofs('C15')
     thorough = ctx.tier == 'thorough'
     n, originals = run_diff(ctx, 500 if thorough else 70, 6 if thorough else 4)
-    out, errs = corr.run([{'rules': r, 'data': d} for r, d in originals[:300]], ctx.wd, 'c15corr', loader='cli')
+    # SEval vs implementation (status, error kind, record tree) AND the memo-free evaluator PEval vs the implementation's status:
+    # C15_verdict_is_memo_free says they coincide on capture-free programs
+    out, errs = corr.run([{'rules': r, 'data': d} for r, d in originals[:300]], ctx.wd, 'c15corr', loader='cli',
+                         expr='({check}, check_peval 120 rt{i} ct{i} p{i} d{i} i{i})',
+                         header='From GV.Model Require Import Check CheckP.\n')
     if errs:
         raise ToolingError('model evaluation failed: %r' % (errs[:1],))
-    stats = {}
+    stats, pstats = {}, {}
     for o, (r, d) in zip(out, originals):
-        key = o['kind'] if o['kind'] != 'compared' else o['verdict']
-        stats[key] = stats.get(key, 0) + 1
-        if o['kind'] == 'compared' and re.search(r'VDis|VModelOOF|NoModelOutput', o['verdict']):
-            ctx.failing('model and implementation disagree on a generated program (%s)' % o['verdict'],
-                        {'class': 'eval-correspondence', 'verdict': o['verdict'], 'rules': r, 'data': d}, found=False)
+        if o['kind'] != 'compared':
+            stats[o['kind']] = stats.get(o['kind'], 0) + 1
+            continue
+        m = re.match(r'\(?\s*(\w+)\s*,\s*(\w+)\s*\)?', o['verdict'])
+        v, pv_ = (m.group(1), m.group(2)) if m else (o['verdict'], 'NoModelOutput')
+        stats[v] = stats.get(v, 0) + 1
+        pstats[pv_] = pstats.get(pv_, 0) + 1
+        if re.search(r'VDis|VModelOOF|NoModelOutput', v):
+            ctx.failing('model and implementation disagree on a generated program (%s)' % v,
+                        {'class': 'eval-correspondence', 'verdict': v, 'rules': r, 'data': d}, found=False)
+        if pv_ in ('PDisStatus', 'PNotDone', 'POutOfFuel', 'NoModelOutput'):
+            ctx.failing('the memo-free evaluator and the implementation disagree on a capture-free program (%s)' % pv_,
+                        {'class': 'memo-free-correspondence', 'verdict': pv_, 'rules': r, 'data': d}, found=False)
     ctx.coverage['correspondence_verdicts'] = stats
+    ctx.coverage['memo_free_verdicts'] = pstats
     n += run_shadowing(ctx)
     ctx.coverage['distinct_nontrivial'] = n
     ctx.coverage['rule'] = ('variant = generated program with one abstraction step (rhs literal/query -> %v at block, rule or file level; lhs query -> %v; unused variables at every '
